@@ -35,23 +35,30 @@ Theorem C10_uncaught_stops : forall fuel p g c i g1 c1 e,
   run (S fuel) p g c = (g1, c1, Finished (Some e)).
 Proof. exact uncaught_stops. Qed.
 
-(* RunDefers (every return path: compileReturn and the end of a function body emit it) starts the frame's
-   deferred calls in the reverse of their registration order, one child context each, and leaves the list
-   empty ... *)
-Theorem C10_defers_rev_once : forall child g c, child_ok child ->
-  run_defers_op child g c = (fold_left (one_call child c) (rev (c_defers c)) g, set_defers c [], None).
+(* RunDefers (every return path: compileReturn and the end of a function body emit it) starts ALL of the frame's
+   deferred calls, in the reverse of their registration order, one child context each, each exactly once --
+   whatever any of them returns (errors included: the first error is reported afterwards) -- and leaves the
+   list empty ... *)
+Theorem C10_defers_rev_once : forall child g c,
+  exists e, run_defers_op child g c = (fold_left (one_call child c) (rev (c_defers c)) g, set_defers c [], e).
 Proof. exact run_defers_rev_once. Qed.
 
-(* ... and whatever the deferred calls do (errors included) a second RunDefers in the same frame starts
-   nothing. *)
+(* ... with no error when no deferred call fails ... *)
+Theorem C10_defers_rev_once_ok : forall child g c, child_ok child ->
+  run_defers_op child g c = (fold_left (one_call child c) (rev (c_defers c)) g, set_defers c [], None).
+Proof. exact run_defers_rev_once_ok. Qed.
+
+(* ... and whatever the deferred calls do a second RunDefers in the same frame starts nothing. *)
 Theorem C10_defers_spent : forall child g c g1 c1 e,
   run_defers_op child g c = (g1, c1, e) -> c_defers c1 = [] /\ run_defers_op child g1 c1 = (g1, c1, None).
 Proof. exact run_defers_spent. Qed.
 
-(* panic unwinding starts them in the same order, each with access to the panic state *)
-Theorem C10_panic_defers_rev_once : forall child g c, child_ok child ->
-  invoke_panic_defers child g c = (fold_left (one_panic_call child) (rev (c_defers c)) (g, c), None).
-Proof. intros. unfold invoke_panic_defers. apply invoke_panic_list_ok. assumption. Qed.
+(* panic unwinding starts ALL of them too, in the same order, each with access to the panic state, whatever
+   panic state or error each call leaves (a call that recovered or failed does not stop the ones registered
+   before it) *)
+Theorem C10_panic_defers_rev_once : forall child g c,
+  exists e, invoke_panic_defers child g c = (fold_left (one_panic_call child) (rev (c_defers c)) (g, c), e).
+Proof. intros. unfold invoke_panic_defers. apply invoke_panic_list_all. Qed.
 
 (* A frame whose deferred calls cleared the panic (recover()) is popped and execution resumes in the caller,
    right after the call, with the caller's own defer list; nothing of the panicking frame stays on the stack
@@ -133,14 +140,16 @@ Example C10_recover_resumes_caller_nonvacuous :
 Proof. vm_compute. reflexivity. Qed.
 
 (* ------------------------------------------------------------------ deferred calls that fail *)
-(* The full statement (every registered deferred call is started exactly once whatever the others do) ... *)
-Definition C10_defers_statement : Prop := forall child g c,
-  fst (fst (run_defers_op child g c)) = fold_left (one_call child c) (rev (c_defers c)) g.
+(* The full statement: every registered deferred call is started exactly once whatever the others do.  It is
+   C10_defers_rev_once for the repaired code (fix b6774d66) ... *)
+Definition C10_defers_statement (op : (glob -> ctx -> glob * option err) -> glob -> ctx -> glob * ctx * option err) : Prop :=
+  forall child g c, fst (fst (op child g c)) = fold_left (one_call child c) (rev (c_defers c)) g.
 
-(* ... does not hold for the VM: invokeDeferredStatements returns at the first deferred call that fails, the
-   deferred calls registered before it are never started (known finding failing-defer-skips-rest).
-   C10_defers_rev_once is the statement under the guard child_ok (no deferred call fails); C10_defers_spent
-   (never twice) holds without it. *)
+Theorem C10_defers_statement_holds : C10_defers_statement run_defers_op.
+Proof. intros child g c. destruct (run_defers_rev_once child g c) as [e H]. rewrite H. reflexivity. Qed.
+
+(* ... and was false before it: invokeDeferredStatements returned at the first deferred call that failed, the
+   deferred calls registered before it were never started. *)
 Definition failing_child (g : glob) (c : ctx) : glob * option err :=
   match c_code c with
   | CDefer d => (set_out g (d_target d :: g_out g),
@@ -148,7 +157,7 @@ Definition failing_child (g : glob) (c : ctx) : glob * option err :=
   | _ => (g, None)
   end.
 
-Theorem C10_failing_defer_skips_rest_refuted : ~ C10_defers_statement.
+Theorem C10_failing_defer_skips_rest_old_refuted : ~ C10_defers_statement run_defers_op_skip_old.
 Proof.
   intros H.
   specialize (H failing_child init_glob
@@ -158,6 +167,12 @@ Proof.
        c_running := true; c_panic := None; c_result := None; c_dsyms := None; c_debug := false |}).
   vm_compute in H. discriminate H.
 Qed.
+
+(* non-vacuity of the unguarded statement: the failing call does not stop the one registered before it *)
+Example C10_defers_rev_once_failing_nonvacuous :
+  rev (g_out (fst (fst (run_defers_op failing_child init_glob ex_dctx)))) = [VInt 3; VInt 2; VInt 1] /\
+  snd (run_defers_op failing_child init_glob ex_dctx) = Some EDivZero.
+Proof. vm_compute. split; reflexivity. Qed.
 
 (* panic path: the deferred call registered LAST recovers; the two registered before it still run, in
    reverse order, and the caller resumes (C10_panic_defers_rev_once folds over ALL of rev (c_defers c),
@@ -174,3 +189,15 @@ Example C10_recover_in_last_registered_defer :
              {| u_lit := true; u_nret := 0; u_code := [IPushV (VInt 2); IPrint 1; IRunDefers; IReturn RNone] |} ] in
   run_program 200 p = [0; 5; 2; 1; 7]%Z.
 Proof. vm_compute. reflexivity. Qed.
+
+(* ------------------------------------------------------------------ value return below stack markers *)
+(* Return(1) (fix 030cc3b3): once the result is taken nothing of the returning function is left above its call
+   frame, whatever try markers / loop markers / temporaries surrounded the return statement; callFramePop then
+   hands the caller the result and nothing else. *)
+Theorem C10_return_leaves_frame_clean : forall fp st, 0 < fp -> fp <= length st -> length (ret1_stack fp st) = fp.
+Proof. exact ret1_stack_clean. Qed.
+
+(* before the fix two try markers above the frame left one behind, which the caller received as a value *)
+Theorem C10_return_marker_old_refuted :
+  exists fp st, 0 < fp /\ fp <= length st /\ length (ret1_stack_old fp st) <> fp.
+Proof. exact ret1_stack_old_leaks. Qed.
